@@ -1,4 +1,26 @@
 import CoupeModel.Model.Kl
+
+/-!
+# Lemmas about the Kernighan-Lin model (`Model/Kl.lean`), used by `Props/C15.lean`
+
+Plan of the proof
+* `swap` of two in-range entries is a permutation and an involution; swaps of
+  disjoint index pairs commute.  Hence replaying a list of pairwise disjoint
+  swaps a second time *in forward order* (what the code's rewind loops do)
+  undoes it (`applySwaps_invol`).
+* `Inv`: book-keeping invariant of the pass loop – the partition is the start
+  partition with `saves` applied, `cut_saves[t]` is the cut after `t+1` swaps,
+  every saved index is locked, saved pairs are pairwise disjoint (a candidate is
+  unlocked, so it differs from every saved index) – `flips_inv`.
+* `pass_spec`: after the rewind(s) the tracked cut is the cut of the tracked
+  partition, it is `≤` the cut at the start of the pass and `<` if the outer
+  loop goes on; the partition is a permutation of the one before.
+* `passes_spec` (induction on the fuel) gives `kl_sizes`, `kl_cut_le`.
+* totality: `flips_ok`/`pass_ok` (no panic site on a well-formed graph),
+  `edgeCut_ge` (the cut is bounded below), `passes_ok` (the fuel suffices),
+  `uniqueIds_two` (a two-way partition passes the `unimplemented!()` gate).
+-/
+
 namespace Coupe.Kl
 
 /-! ## `swap` -/
